@@ -25,7 +25,18 @@ func init() {
 			for i, s := range specs {
 				ts[i] = buildType(s, cache)
 			}
-			ns := newStrategy(st)
+			// the documented way to vary a strategy: copy one made by a constructor and change the members that differ.
+			// The original then names the same types first: the copy's names must be its own.
+			base := newStrategy(common.StrategySpec{Public: st.Public, Prepend: st.Prepend, Ignore: st.Ignore})
+			copied := *base
+			ns := &copied
+			ns.Prefix, ns.Suffix = st.Prefix, st.Suffix
+			for _, i := range order {
+				func() {
+					defer func() { recover() }()
+					base.Name(ts[i])
+				}()
+			}
 			out := make([]string, len(specs))
 			for _, i := range order {
 				func() {
